@@ -763,6 +763,123 @@ func Join(w *load.World, c *core.Collector) {
 	if nFan < 2 {
 		c.Add("JOIN", "anchor:fanin", core.Undecided, "", fmt.Sprintf("found %d fan-in goroutines, expected at least 2", nFan), props...)
 	}
+	// (a') the cause reported is the cause of the context that the stages cancel: where a function derives
+	// a cancel-with-cause context, every context.Cause in it and in its literals reads that derived context
+	nCause := 0
+	for _, f := range w.Fns {
+		if f.Parent() != nil {
+			continue
+		}
+		var derived ssa.Value
+		for _, b := range f.Blocks {
+			for _, in := range b.Instrs {
+				if call, ok := in.(*ssa.Call); ok {
+					if g := call.Call.StaticCallee(); g != nil && g.String() == "context.WithCancelCause" {
+						derived = resultValue(call, 0)
+					}
+				}
+			}
+		}
+		if derived == nil {
+			continue
+		}
+		// cellHolds: at instruction `at` of the cell's function the cell holds the derived context:
+		// the store of the derived context precedes `at` and every other store precedes that store
+		cellHolds := func(cell *ssa.Alloc, at ssa.Instruction) bool {
+			var d *ssa.Store
+			var others []*ssa.Store
+			for _, r := range *cell.Referrers() {
+				if st, ok := r.(*ssa.Store); ok && st.Addr == ssa.Value(cell) {
+					if st.Val == derived {
+						d = st
+					} else {
+						others = append(others, st)
+					}
+				}
+			}
+			if d == nil || (at != nil && !ssax.Precedes(d, at)) {
+				return false
+			}
+			for _, o := range others {
+				if !ssax.Precedes(o, d) {
+					return false
+				}
+			}
+			return true
+		}
+		var isDerivedAt func(g *ssa.Function, v ssa.Value, at ssa.Instruction, depth int) bool
+		isDerived := func(g *ssa.Function, v ssa.Value, depth int) bool {
+			var at ssa.Instruction
+			if in, ok := v.(ssa.Instruction); ok {
+				at = in
+			}
+			return isDerivedAt(g, v, at, depth)
+		}
+		isDerivedAt = func(g *ssa.Function, v ssa.Value, at ssa.Instruction, depth int) bool {
+			if depth > 4 {
+				return false
+			}
+			if v == derived {
+				return true
+			}
+			switch x := v.(type) {
+			case *ssa.UnOp:
+				if al, ok := x.X.(*ssa.Alloc); ok {
+					return cellHolds(al, x)
+				}
+				if fv, ok := x.X.(*ssa.FreeVar); ok {
+					return isDerivedAt(g, fv, at, depth+1)
+				}
+			case *ssa.Alloc:
+				return cellHolds(x, at)
+			case *ssa.FreeVar:
+				if g.Parent() == nil {
+					return false
+				}
+				for i, q := range g.FreeVars {
+					if q != x {
+						continue
+					}
+					for _, pb := range g.Parent().Blocks {
+						for _, pi := range pb.Instrs {
+							if mc, ok := pi.(*ssa.MakeClosure); ok && mc.Fn == g && i < len(mc.Bindings) {
+								if isDerivedAt(g.Parent(), mc.Bindings[i], mc, depth+1) {
+									return true
+								}
+							}
+						}
+					}
+				}
+			}
+			return false
+		}
+		var visit func(g *ssa.Function)
+		visit = func(g *ssa.Function) {
+			for _, b := range g.Blocks {
+				for _, in := range b.Instrs {
+					call, ok := in.(*ssa.Call)
+					if !ok {
+						continue
+					}
+					if cg := call.Call.StaticCallee(); cg == nil || cg.String() != "context.Cause" {
+						continue
+					}
+					nCause++
+					key := fmt.Sprintf("cause-of-derived:%s", load.FnKey(g))
+					if isDerived(g, call.Call.Args[0], 0) {
+						c.Add("JOIN", key, core.OK, w.At(in), "", props...)
+					} else {
+						c.Add("JOIN", key, core.Violation, w.At(in), "context.Cause is read from a context other than the cancel-with-cause context this function derived and its stages cancel: an error of a stage is reported as success", props...)
+					}
+				}
+			}
+			for _, a := range g.AnonFuncs {
+				visit(a)
+			}
+		}
+		visit(f)
+	}
+	c.Count("context_cause_reads", nCause)
 	// reachability from write callbacks
 	var roots []*ssa.Function
 	cbs := txCallbacks(w)
@@ -1035,6 +1152,118 @@ func reachNoRecv(from, to *ssa.BasicBlock, recv func(*ssa.BasicBlock) bool) bool
 
 // --------------------------------------------------------------------- ERRS
 
+// errActedUpon: the error value is tested against nil, returned, sent, or handed to another call
+// before it can be overwritten. A value that is only parked in a variable (named result, local)
+// which is assigned again on some path before anybody looked at it is lost.
+func errActedUpon(v ssa.Value) (bool, string) {
+	seen := map[ssa.Value]bool{}
+	var handled func(x ssa.Value, depth int) (bool, string)
+	handled = func(x ssa.Value, depth int) (bool, string) {
+		if seen[x] || depth > 8 || x.Referrers() == nil {
+			return false, ""
+		}
+		seen[x] = true
+		why := ""
+		for _, r := range *x.Referrers() {
+			switch u := r.(type) {
+			case *ssa.DebugRef:
+			case *ssa.BinOp:
+				if ssax.IsNilConst(u.X) || ssax.IsNilConst(u.Y) {
+					return true, ""
+				}
+			case *ssa.Return, *ssa.Send:
+				return true, ""
+			case *ssa.Call, *ssa.Defer, *ssa.Go:
+				return true, ""
+			case *ssa.MakeInterface, *ssa.ChangeInterface, *ssa.ChangeType, *ssa.Phi, *ssa.Extract, *ssa.TypeAssert:
+				if ok, _ := handled(u.(ssa.Value), depth+1); ok {
+					return true, ""
+				}
+			case *ssa.MapUpdate:
+				return true, ""
+			case *ssa.Store:
+				if u.Val != x {
+					continue
+				}
+				cell, isCell := u.Addr.(*ssa.Alloc)
+				if !isCell {
+					return true, "" // stored into a field / element: somebody else's business
+				}
+				if ok, w := cellReadBeforeOverwrite(u, cell); ok {
+					return true, ""
+				} else if w != "" {
+					why = w
+				}
+			}
+		}
+		return false, why
+	}
+	return handled(v, 0)
+}
+
+// cellReadBeforeOverwrite: on every path from the store, the cell is loaded (and that load acted
+// upon) or the function returns it, before another store to the cell happens.
+func cellReadBeforeOverwrite(st *ssa.Store, cell *ssa.Alloc) (bool, string) {
+	isHandledLoad := func(in ssa.Instruction) bool {
+		u, ok := in.(*ssa.UnOp)
+		if !ok || u.Op != token.MUL || u.X != ssa.Value(cell) || u.Referrers() == nil {
+			return false
+		}
+		for _, r := range *u.Referrers() {
+			switch x := r.(type) {
+			case *ssa.BinOp:
+				if ssax.IsNilConst(x.X) || ssax.IsNilConst(x.Y) {
+					return true
+				}
+			case *ssa.Return, *ssa.Send, *ssa.Call, *ssa.MakeInterface, *ssa.Phi, *ssa.Store:
+				return true
+			}
+		}
+		return false
+	}
+	type pos struct {
+		b *ssa.BasicBlock
+		i int
+	}
+	seen := map[*ssa.BasicBlock]bool{}
+	var lost string
+	var walk func(b *ssa.BasicBlock, from int) bool
+	walk = func(b *ssa.BasicBlock, from int) bool {
+		for i := from; i < len(b.Instrs); i++ {
+			in := b.Instrs[i]
+			if isHandledLoad(in) {
+				return true
+			}
+			if s2, ok := in.(*ssa.Store); ok && s2.Addr == ssa.Value(cell) {
+				lost = "it is parked in a variable that is assigned again before anybody looked at it"
+				return false
+			}
+			if _, ok := in.(*ssa.Return); ok {
+				// named results are loaded right before the return; reaching a return without a load
+				// means the variable is not returned
+				return true
+			}
+		}
+		for _, s := range b.Succs {
+			if seen[s] {
+				if s == st.Block() {
+					lost = "it is parked in a variable that is assigned again on the next loop iteration before anybody looked at it"
+					return false
+				}
+				continue
+			}
+			seen[s] = true
+			if !walk(s, 0) {
+				return false
+			}
+		}
+		return true
+	}
+	idx := ssax.InstrIndex(st)
+	ok := walk(st.Block(), idx+1)
+	return ok, lost
+}
+
 func storageCallee(cc *ssa.CallCommon) (string, bool) {
 	if cc.IsInvoke() {
 		tn := ssax.TypeName(cc.Value.Type())
@@ -1098,9 +1327,16 @@ func Errs(w *load.World, c *core.Collector) {
 					n++
 					v := resultValue(call, i)
 					key := fmt.Sprintf("err:%s@%s", load.Short(name), load.FnKey(f))
+					acted, why := false, ""
 					if v != nil && ssax.Used(v) {
+						acted, why = errActedUpon(v)
+					}
+					switch {
+					case acted:
 						c.Add("ERRS", key, core.OK, w.At(in), "", props...)
-					} else {
+					case why != "":
+						c.Add("ERRS", key, core.Violation, w.At(in), "error result of a storage-layer call can be lost on the write path: "+why+" — a storage fault would not roll the batch back", props...)
+					default:
 						c.Add("ERRS", key, core.Violation, w.At(in), "error result of a storage-layer call is dropped on the write path: a storage fault would not roll the batch back", props...)
 					}
 				}
